@@ -280,6 +280,9 @@ impl CallHelper {
 
         debug!(target: "debugger", "add call instructions");
         ccx.dbg.write_memory(rip as usize, CALL_FN)?;
+        // pc still holds the `jmp *%rax` used to get here: put the original text back before the
+        // callee runs, it may be the very function the thread is stopped in.
+        ccx.dbg.write_memory(ccx.pc.as_usize(), ccx.text)?;
 
         debug!(target: "debugger", "prepare function arguments");
         let mut regs: RegisterMap = ccx.regs.clone();
